@@ -9,6 +9,12 @@ harness); each of them is also a scheduling point in the harness' line-level mod
 import functools
 import pickle
 
+try:
+    from harness.stub_incomplete import StubIncomplete
+except Exception:  # noqa: BLE001  (used outside the harness)
+    class StubIncomplete(AttributeError):
+        pass
+
 _OBSERVER = None       # callable(kind, module_id or None, *args): records one event (no scheduling inside)
 _YIELD = None          # callable(): a scheduling point, called BEFORE an observed operation takes effect
 
@@ -50,15 +56,42 @@ def get_default_device():
 class Tensor:
     """one parameter tensor: an integer payload [v]; .grad is an observed attribute"""
 
-    def __init__(self, v=0, owner=None, index=None):
+    def __init__(self, v=0, owner=None, index=None, requires_grad=False):
         self._v = v
         self._grad = None
         self.owner = owner      # module id (set by Module.register)
         self.index = index
         self.device = device("cpu")
+        self.requires_grad = requires_grad
+        self.is_leaf = True
+        self.dtype = float32
+
+    def __getattr__(self, name):
+        if name.startswith("__"):
+            raise AttributeError(name)
+        raise StubIncomplete(f"stand-in torch.Tensor has no attribute {name!r}")
 
     def to(self, *a, **k):
         return self
+
+    def requires_grad_(self, requires_grad=True):
+        self.requires_grad = requires_grad
+        return self
+
+    def detach(self):
+        return self
+
+    def numel(self):
+        return 1
+
+    @property
+    def data(self):
+        return self
+
+    def clone(self):
+        t = type(self)(self.read(), None, None)
+        t.requires_grad = self.requires_grad
+        return t
 
     # payload access (what reading / in-place writing a tensor means)
     def read(self):
@@ -85,6 +118,10 @@ class Tensor:
         _emit("grad", self.owner, self.index, g)
 
 
+def is_grad_enabled():
+    return True
+
+
 class inference_mode:
     """usable as a decorator (with or without call) and as a context manager"""
 
@@ -102,6 +139,10 @@ class inference_mode:
 
     def __exit__(self, *a):
         return False
+
+
+no_grad = inference_mode
+enable_grad = inference_mode
 
 
 def save(obj, path, *a, **k):
